@@ -132,9 +132,10 @@ def main():
     rc = 0
     replay_paths = []
     if unknown:
-        os.makedirs(os.path.join(vlib.VERIF, "evidence", "replay"), exist_ok=True)
+        rdir = os.path.join(os.environ.get("VERIF_EVIDENCE_DIR", os.path.join(vlib.VERIF, "evidence")), "replay")
+        os.makedirs(rdir, exist_ok=True)
         for i, t in enumerate(unknown[:5]):
-            p = os.path.join(vlib.VERIF, "evidence", "replay", f"{pid}-{a.tier}-{seed}-{i}.json")
+            p = os.path.join(rdir, f"{pid}-{a.tier}-{seed}-{i}.json")
             json.dump({"property": pid, "tags": t["tags"], "event": t.get("ev"), "line": t.get("l"), "family": t["family"],
                        "behaviour": t.get("behaviour"), "world": t.get("world"), "observed": t.get("observed")}, open(p, "w"), indent=1)
             replay_paths.append(p)
@@ -170,8 +171,9 @@ def main():
     }
     if drift and a.tier:
         ev["level"] = "exploration" if not mc else "model_checking"
-    os.makedirs(os.path.join(vlib.VERIF, "evidence"), exist_ok=True)
-    json.dump(ev, open(os.path.join(vlib.VERIF, "evidence", f"{pid}.json"), "w"), indent=1)
+    evdir = os.environ.get("VERIF_EVIDENCE_DIR", os.path.join(vlib.VERIF, "evidence"))
+    os.makedirs(evdir, exist_ok=True)
+    json.dump(ev, open(os.path.join(evdir, f"{pid}.json"), "w"), indent=1)
     print(f"property={pid} tier={a.tier} seed={seed} behaviours={res.get('behaviours')} events={res.get('events')} "
           f"violations={len(unknown)} known={len(known_hits)} drift={bool(drift)} wall={ev['wall_s']}s")
     return rc
